@@ -514,8 +514,80 @@ def _ops(t):
     return out
 
 
+# ---------------------------------------------------------------------------------------------
+# (located) zip, locate with weights, custom index
+
+@st.composite
+def located_cases(draw, tier):
+    def nodes():
+        n = draw(st.integers(1, 4))
+        inner = sorted({draw(st.sampled_from([.1, .2, .25, .4, .5, .6, .75, .8])) for _ in range(n - 1)})
+        return [0.] + inner + [1.]
+    return dict(nx=nodes(), ny=nodes(), scheme=draw(st.sampled_from([['gauss', 2], ['gauss', 3], ['uniform', 2], ['uniform', 3]])), perm_seed=draw(st.integers(0, 1000)),
+                w=[draw(st.sampled_from([.5, 1., 2., .25, 1.5])) for _ in range(12)], coeffs=[draw(st.sampled_from([1., -1., .5, 2.])) for _ in range(3)], dim2=draw(st.booleans()))
+
+
+def check_located(case, rec):
+    from nutils import mesh, function, sample as _sample
+    with warnings.catch_warnings():
+        warnings.simplefilter('ignore')
+        tx, gx = mesh.line(numpy.array(case['nx']), space='X')
+        if case['dim2']:
+            ty, gy2 = mesh.rectilinear([numpy.array(case['ny']), numpy.array([0., 1.])], space='Y')
+            gy = gy2[0]
+        else:
+            ty, gy = mesh.line(numpy.array(case['ny']), space='Y')
+        s1 = tx.sample(*case['scheme'])
+        X = numpy.asarray(s1.eval(gx))
+        c = case['coeffs']
+        f = lambda g: c[0] + c[1] * g + c[2] * g * g
+        # (1) zip with a located copy on another space
+        targets = numpy.stack([X, numpy.full_like(X, .5)], axis=1) if case['dim2'] else X[:, None]
+        s2 = ty.locate(gy2 if case['dim2'] else gy[None], targets, tol=1e-10, eps=1e-12)
+        z = s1.zip(s2)
+        if z.npoints != s1.npoints:
+            raise Violation('counts', f'zip has {z.npoints} points, first sample {s1.npoints}', where='zip:counts')
+        a, b = z.eval([gx, gy])
+        a = numpy.asarray(a); b = numpy.asarray(b)
+        if not numpy.allclose(a, X, atol=1e-13):
+            raise Violation('points', 'zip does not report the first sample\'s points in its order', where='zip:order')
+        if abs(a - b).max() > 1e-9:
+            raise Violation('points', f'zipped samples disagree on the physical point by {abs(a - b).max():.2e}', where='zip:pairing')
+        got = float(z.integrate(f(gx) * f(gy) * function.J(gx[None])))
+        want = float(s1.integrate(f(gx) * f(gx) * function.J(gx[None])))
+        if abs(got - want) > 1e-9 * (1 + abs(want)):
+            raise Violation('integrate', f'zipped integral {got!r} != integral over the first sample {want!r}', where='zip:integrate')
+        # (2) locate with weights: integral is the weighted sum in input order
+        k = min(len(X), 12)
+        w = numpy.array(case['w'][:k])
+        lw = tx.locate(gx[None], X[:k, None], tol=1e-10, eps=1e-12, weights=w)
+        got = float(lw.integrate(f(gx)))
+        want = float((w * f(X[:k])).sum())
+        if abs(got - want) > 1e-10 * (1 + abs(want)):
+            raise Violation('integrate', f'located sample with weights integrates to {got!r}, sum w f(x) = {want!r}', where='locate-weights')
+        ev = numpy.asarray(lw.eval(gx))
+        if not numpy.allclose(ev, X[:k], atol=1e-9):
+            raise Violation('points', 'located sample does not evaluate in input order', where='locate-order')
+        # (3) custom index: evaluation order follows the index
+        perm = numpy.argsort((numpy.arange(s1.npoints) * 7919 + case['perm_seed']) % 1009, kind='stable')   # a permutation determined by the generated integer (no RNG)
+        sc = _sample.Sample.new('X', (tx.transforms, tx.opposites), s1.points, index=perm)
+        Y = numpy.asarray(sc.eval(gx))
+        for i in range(sc.nelems):
+            idx = numpy.asarray(sc.getindex(i)); base = numpy.asarray(s1.getindex(i))
+            if not numpy.array_equal(idx, perm[base]):
+                raise Violation('index', f'custom index: element {i} has index {idx.tolist()}, expected {perm[base].tolist()}', where='custom-index')
+            if not numpy.allclose(Y[idx], X[base], atol=1e-13):
+                raise Violation('points', f'custom index: element {i} evaluates other points than advertised', where='custom-index:eval')
+        got = float(sc.integrate(f(gx) * function.J(gx[None]))); want = float(s1.integrate(f(gx) * function.J(gx[None])))
+        if abs(got - want) > 1e-12 * (1 + abs(want)):
+            raise Violation('integrate', 'custom index changes the integral', where='custom-index:integrate')
+    rec.nontrivial = True
+    rec.label('zip', 'locate-weights', 'custom-index')
+
+
 SUBS = [Sub('gauss', gauss_cases, check_gauss, {'quick': 500, 'thorough': 6000}, weight=2),
-        Sub('algebra', algebra_cases, check_algebra, {'quick': 60, 'thorough': 1500}, weight=2, timeout=120)]
+        Sub('algebra', algebra_cases, check_algebra, {'quick': 60, 'thorough': 1500}, weight=2, timeout=120),
+        Sub('located', located_cases, check_located, {'quick': 30, 'thorough': 600}, weight=1, timeout=120)]
 
 def _union_in_product(case, v):
     def has(t, op):
@@ -535,5 +607,5 @@ MANIFEST = dict(
     text='Gauss schemes of every documented degree on simplices, tensor products, refined children and affinely trimmed elements must have all points inside, weights summing to the independently computed volume and must '
          'integrate every admissible monomial to its closed form; generated sample terms (products, sums, take_elements, subset) over line/rectilinear meshes are compared element by element with a reference model: counts, '
          'index partition, evaluated points per element, and integrate(f)==sum w f(x). Held on everything explored.',
-    note='Trusted: Dirichlet closed forms, own Gauss-Legendre/Duffy rules and polygon clipping; Hypothesis. zip/locate-with-weights/custom index are generated but currently reduce to their base sample (not yet modelled).',
+    note='Trusted: Dirichlet closed forms, own Gauss-Legendre/Duffy rules and polygon clipping; Hypothesis. zip, locate(weights=...) and custom index are checked by the separate sub-check "located" on 1-D/2-D meshes.',
 )
